@@ -30,6 +30,8 @@ type Proc struct {
 	exitErr error
 	logf    *os.File
 	waiters []*lineWaiter
+	watch   map[string]func(string) bool
+	watched map[string]int
 }
 
 type lineWaiter struct {
@@ -88,9 +90,32 @@ func StartProc(name, bin string, args []string, env ...string) (*Proc, error) {
 	return p, nil
 }
 
+// Watch counts the output lines for which pred holds (see Watched).
+func (p *Proc) Watch(name string, pred func(string) bool) {
+	p.mu.Lock()
+	defer p.mu.Unlock()
+	if p.watch == nil {
+		p.watch = map[string]func(string) bool{}
+		p.watched = map[string]int{}
+	}
+	p.watch[name] = pred
+}
+
+// Watched returns how many lines matched the named watcher so far.
+func (p *Proc) Watched(name string) int {
+	p.mu.Lock()
+	defer p.mu.Unlock()
+	return p.watched[name]
+}
+
 func (p *Proc) addLine(l string) {
 	p.mu.Lock()
 	defer p.mu.Unlock()
+	for n, pred := range p.watch {
+		if pred(l) {
+			p.watched[n]++
+		}
+	}
 	if p.logf != nil {
 		// keep logs bounded: only the first 20 MB
 		if st, err := p.logf.Stat(); err == nil && st.Size() < 20<<20 {
